@@ -25,3 +25,13 @@ Lemma gen_structure :
   value_and_array_build_on_raw_and_default_to_rlock = true /\
   with_wrapper_and_get_lock_use_the_wrappers_lock = true.
 Proof. repeat split; reflexivity. Qed.
+
+(* every branch of synchronized(obj, lock, ctx) is `Wrapper(obj, lock, ctx)`: the caller's lock
+   (and ctx) reaches the wrapper whatever the ctypes kind -- simple value, array, char array,
+   structure *)
+Lemma gen_synchronized_passes_lock :
+  G_sharedmem.synchronized_branches = SharedMem.synchronized_branches /\
+  G_sharedmem.synchronized_branches_passing_lock_and_ctx = G_sharedmem.synchronized_branches /\
+  pickling_a_wrapper_passes_its_object_and_its_lock = true /\
+  value_and_array_hand_lock_and_ctx_to_synchronized = true.
+Proof. repeat split; reflexivity. Qed.
